@@ -306,7 +306,7 @@ func c05Construct(rt *rapid.T, name string) (string, []string) {
 		n := rapid.IntRange(1, 4).Draw(rt, "arity")
 		p := ""
 		if gen.Chance(rt, "hasPre", 1, 4) {
-			p = gen.Pick(rt, "gpre", "rc1", "a", "pre", "beta2")
+			p = gen.Pick(rt, "gpre", "rc1", "a", "pre", "beta2", "rc.1", "-rc1", "-alpha", "-1", "-3.4", "-1.rc2", "-2024.01", "-0.1.a")
 		}
 		return "pess", append(append([]string{}, []string{x, y, z, w}[:n]...), p)
 	case "hex":
